@@ -107,6 +107,30 @@ func genSyscallRecNamed(rt *rapid.T, tk *tokens, name string) kenc.Rec {
 	return kenc.Rec{Type: recgen.SYSCALL, Fields: f}
 }
 
+var otherGroup = func() []*auparse.AuditMessage {
+	var out []*auparse.AuditMessage
+	for _, l := range []string{
+		`type=SYSCALL msg=audit(1700000000.123:4711): arch=c000003e syscall=2 success=no exit=-13 a0=1 a1=2 a2=3 a3=4 items=2 ppid=7 pid=8 auid=9 uid=10 gid=11 euid=12 suid=13 fsuid=14 egid=15 sgid=16 fsgid=17 tty=pts9 ses=18 comm="other" exe="/bin/other" subj=a:b:c:s0 key="otherkey"`,
+		`type=CWD msg=audit(1700000000.123:4711): cwd="/other/cwd"`,
+		`type=PATH msg=audit(1700000000.123:4711): item=0 name="/other/dir" inode=1 dev=fd:01 mode=040755 ouid=0 ogid=0 rdev=00:00 nametype=PARENT`,
+		`type=PATH msg=audit(1700000000.123:4711): item=1 name="/other/dir/file" inode=2 dev=fd:01 mode=0100644 ouid=1 ogid=2 rdev=00:00 nametype=NORMAL`,
+		`type=SOCKADDR msg=audit(1700000000.123:4711): saddr=020000357F0000010000000000000000`,
+		`type=EXECVE msg=audit(1700000000.123:4711): argc=2 a0="o0" a1="o1"`,
+		`type=PROCTITLE msg=audit(1700000000.123:4711): proctitle=6F7468657200746974`,
+	} {
+		if m, err := auparse.ParseLogLine(l); err == nil {
+			out = append(out, m)
+		}
+	}
+	return out
+}()
+
+func coalesceSomethingElse() {
+	if ev, err := aucoalesce.CoalesceMessages(otherGroup); err == nil {
+		aucoalesce.ResolveIDs(ev)
+	}
+}
+
 func setField(r *kenc.Rec, key, val string) {
 	for i := range r.Fields {
 		if r.Fields[i].K == key {
@@ -476,6 +500,7 @@ func propC09(c C09Case) error {
 		return err
 	}
 	ev, err := aucoalesce.CoalesceMessages(msgs)
+	coalesceSomethingElse() // the event handed out must not depend on what is coalesced afterwards
 	data := 0
 	hasSyscall := false
 	for _, r := range c.Recs {
